@@ -14,6 +14,7 @@ import (
 	"strings"
 	"strconv"
 	"sync"
+	"syscall"
 	"testing"
 	"time"
 
@@ -36,6 +37,7 @@ type vfC17Case struct {
 	Relays    int        `json:"relays"`
 	RelayLate int        `json:"relay_late_ms"` // the relay's own connector towards the server is this late (relay in the path only)
 	ActDelay  int        `json:"act_delay_ms"`  // in-band latency for the client's ACT line (a user choosing files, a slow path)
+	HoldCfg   bool       `json:"hold_cfg,omitempty"` // see the tunnel hook: in-band shell output between the action and the configuration
 	Impostor  string     `json:"impostor,omitempty"` // connector "impostor": what the thing answering the client's dial presents as its greeting
 }
 
@@ -322,8 +324,23 @@ func vfC17Run(cs vfC17Case, res *vfC17Stats) string {
 		return inner(p)
 	})
 	junkDone := false
+	var holdOnce sync.Once
 	sess.tunC2S.onMsg = func(m vfMsg, before bool) {
 		adoptOnce.Do(func() { close(adopted) }) // the client writes protocol lines on its tunnel connection: it was adopted
+		if cs.HoldCfg && before && m.Idx == 0 {
+			// the server is held (SIGSTOP) just before the action goes out over the tunnel: the relays sit between the action
+			// and the configuration for 200 ms, and in that time the shell prints something in-band (a background job's output).
+			// With the tunnel in use that is ordinary terminal output - not part of anybody's handshake.
+			holdOnce.Do(func() {
+				sess.signalServer(syscall.SIGSTOP) // before the action goes out: the server cannot answer until it is continued
+				go func() {
+					time.Sleep(100 * time.Millisecond)
+					sess.shellOutput([]byte("[1]+  Done   sleep 5\r\njob output line\n"))
+					time.Sleep(110 * time.Millisecond)
+					sess.signalServer(syscall.SIGCONT)
+				}()
+			})
+		}
 	}
 	if cs.Junk {
 		// in-band junk "after the tunnel is in use": once the server's first line has come back over the tunnel, every hop (the
@@ -445,6 +462,7 @@ func vfGenC17(rt *rapid.T) vfC17Case {
 		cs.RelayLate = rapid.SampledFrom([]int{0, 0, 300, 1200, 1600}).Draw(rt, "relaylate")
 	}
 	cs.ActDelay = rapid.SampledFrom([]int{0, 0, 0, 700, 2500}).Draw(rt, "actdelay")
+	cs.HoldCfg = cs.Connector == "immediate" && cs.Relays > 0 && rapid.Bool().Draw(rt, "holdcfg")
 	return cs
 }
 
@@ -478,6 +496,9 @@ func TestVF_C17(t *testing.T) {
 		}
 		if cs.ActDelay > 0 {
 			labels = append(labels, fmt.Sprintf("act_delayed_%d", cs.ActDelay))
+		}
+		if cs.HoldCfg {
+			labels = append(labels, "shell_output_between_action_and_configuration")
 		}
 		if cs.RelayLate > 0 {
 			labels = append(labels, fmt.Sprintf("relay_connector_late_%d", cs.RelayLate))
